@@ -328,6 +328,18 @@ pub fn exec_special(ctx: &mut Ctx, ex: &mut Extra, hist: &mut Vec<String>, toks:
                 Err(_) => "gengine PANIC".to_string(),
             }
         }
+        "gunplay" => {
+            // take back the last move made through the Game (test scaffolding for C15)
+            let g = ex.game.as_mut().unwrap();
+            match g.last_move() {
+                Some(m) => {
+                    m.undo(g.board_mut()).unwrap();
+                    hist.pop();
+                    "ok".to_string()
+                }
+                None => "nothing".to_string(),
+            }
+        }
         "gtoggle" => {
             ex.game.as_mut().unwrap().board_mut().toggle_turn();
             "ok".to_string()
